@@ -138,6 +138,10 @@ pub struct Scenario {
     pub kind: Kind,
     pub progs: Vec<Prog>,
     pub packets: Vec<Vec<u8>>,
+    /// packet i may be a *prefix view* of packet prefix_of[i]'s buffer: same start address, shorter
+    /// (possibly zero) length — e.g. successive frames in one receive buffer. Its entry in `packets`
+    /// is a copy of those bytes (what the program must see).
+    pub prefix_of: Vec<Option<usize>>,
     /// Mbuff kind: two caller-owned metadata buffers of the same length (possibly 0)
     pub mbuffs: Vec<Vec<u8>>,
     pub ops: Vec<Op>,
@@ -149,6 +153,14 @@ impl Scenario {
         o["kind"] = self.kind.name().into();
         o["progs"] = JsonValue::Array(self.progs.iter().map(|p| p.to_json()).collect());
         o["packets"] = JsonValue::Array(self.packets.iter().map(|p| simcore::hex(p).into()).collect());
+        o["prefix_of"] = JsonValue::Array(
+            (0..self.packets.len())
+                .map(|i| match self.prefix_of.get(i).copied().flatten() {
+                    Some(b) => b.into(),
+                    None => JsonValue::Null,
+                })
+                .collect(),
+        );
         o["mbuffs"] = JsonValue::Array(self.mbuffs.iter().map(|p| simcore::hex(p).into()).collect());
         o["ops"] = JsonValue::Array(self.ops.iter().map(|p| p.to_json()).collect());
         o
@@ -170,7 +182,17 @@ impl Scenario {
         for p in v["ops"].members() {
             ops.push(Op::from_json(p)?);
         }
-        Some(Scenario { kind: Kind::parse(v["kind"].as_str()?)?, progs, packets, mbuffs, ops })
+        let mut prefix_of: Vec<Option<usize>> = v["prefix_of"].members().map(|x| x.as_usize()).collect();
+        prefix_of.resize(packets.len(), None);
+        for (i, b) in prefix_of.iter_mut().enumerate() {
+            // only well-formed views survive (a hand-edited replay file must not make the harness unsafe)
+            if let Some(base) = *b {
+                if base >= packets.len() || base == i || packets[i].len() > packets[base].len() || packets[base][..packets[i].len()] != packets[i][..] {
+                    *b = None;
+                }
+            }
+        }
+        Some(Scenario { kind: Kind::parse(v["kind"].as_str()?)?, progs, packets, prefix_of, mbuffs, ops })
     }
 }
 
@@ -508,11 +530,20 @@ impl<'s> Runner<'s> {
         if !self.sc.kind.has_packet() {
             return Buf::empty_at(self.arena.empty_anchor.as_mut_ptr());
         }
+        if let Some(base) = self.sc.prefix_of.get(pkt).copied().flatten() {
+            // a view of the first bytes of another packet's buffer (also when it is empty)
+            let len = self.sc.packets[pkt].len();
+            return Buf { ptr: self.arena.packets[base].as_mut_ptr(), len };
+        }
         if self.arena.packets[pkt].is_empty() {
             Buf::empty_at(self.arena.empty_anchor.as_mut_ptr())
         } else {
             Buf::of(&mut self.arena.packets[pkt])
         }
+    }
+    /// index of the buffer that backs packet `pkt`
+    fn pkt_base(&self, pkt: usize) -> usize {
+        self.sc.prefix_of.get(pkt).copied().flatten().unwrap_or(pkt)
     }
     fn mb_buf(&mut self, mb: usize) -> Buf {
         if self.sc.kind != Kind::Mbuff || self.arena.mbuffs[mb].is_empty() {
@@ -576,14 +607,15 @@ impl<'s> Runner<'s> {
         let outcome = vm.exec(engine, pb, mbb);
         let overflow = guard::check_canaries();
         let (probe_r1, probe_slot, probe_stack, helper_log) = tls(|t| (t.probe_r1.take(), t.probe_slot.take(), t.probe_stack.take(), std::mem::take(&mut t.helper_log)));
-        let pkt_after = if self.sc.kind.has_packet() { self.arena.packets[pkt].clone() } else { Vec::new() };
+        let pkt_after = if self.sc.kind.has_packet() { self.arena.packets[self.pkt_base(pkt)].clone() } else { Vec::new() };
         let mb_after = if self.sc.kind == Kind::Mbuff { self.arena.mbuffs[mb].clone() } else { Vec::new() };
         ExecObs { outcome, pkt_after, mb_after, probe_r1, probe_slot, probe_stack, helper_log, overflow }
     }
 
     fn restore_buffers(&mut self, pkt: usize, mb: usize) {
         if self.sc.kind.has_packet() {
-            self.arena.packets[pkt].copy_from_slice(&self.sc.packets[pkt]);
+            let b = self.pkt_base(pkt);
+            self.arena.packets[b].copy_from_slice(&self.sc.packets[b]);
         }
         if self.sc.kind == Kind::Mbuff && !self.sc.mbuffs.is_empty() {
             self.arena.mbuffs[mb].copy_from_slice(&self.sc.mbuffs[mb]);
@@ -639,7 +671,7 @@ impl<'s> Runner<'s> {
         let kind = self.sc.kind;
         let who = if fresh { "fresh VM" } else { "history VM" };
         let plen = if kind.has_packet() { self.sc.packets[pkt].len() } else { 0 };
-        let pptr = if plen > 0 { self.arena.packets[pkt].as_ptr() as u64 } else { 0 };
+        let pptr = if plen > 0 { self.arena.packets[self.pkt_base(pkt)].as_ptr() as u64 } else { 0 };
         let r0 = match &obs.outcome {
             Outcome::Ok(v) => Some(*v),
             _ => None,
@@ -746,6 +778,43 @@ impl<'s> Runner<'s> {
                     Some(v) if v == expected => {}
                     Some(v) => return self.c09(format!("packet-load-base/{}", engine.name()), at, format!("{}: {}-byte {} at packet offset {} returned {:#x}, expected {:#x}", who, prog.w, if prog.class == Class::ProbePktAbs { "ldabs" } else { "ldind" }, idx, v, expected)),
                     None => return self.c09(format!("packet-load-base/{}", engine.name()), at, format!("{}: packet load of byte {} (packet length {}) -> {}", who, idx, plen, obs.outcome.short())),
+                }
+            }
+            Class::ProbeHelperThenPkt => {
+                // r0 = packet byte << 32 | low half of what the program stored at r10-512, then the tag
+                let idx = prog.p0 as usize;
+                if plen < prog.min_pkt {
+                    return None;
+                }
+                let expected = ((((self.sc.packets[pkt][idx] as u64) << 32) | prog.p1 as u64) << 8) | prog.tag as u64;
+                match (&obs.outcome, obs.probe_stack) {
+                    (Outcome::Ok(v), Some((_, btag))) if btag == prog.tag as u64 => {
+                        self.counters.inc("c09_helper_then_pkt_checks");
+                        if *v != expected {
+                            let pkt_ok = (v >> 40) == (expected >> 40);
+                            let class = if pkt_ok { format!("stack-top/{}", engine.name()) } else { format!("packet-load-base/{}", engine.name()) };
+                            return self.c09(class, at, format!("{}: after a helper call, packet byte {} and the value stored at r10-512 read back as {:#x}, expected {:#x}", who, idx, v >> 8, expected >> 8));
+                        }
+                    }
+                    (Outcome::Signal(s), Some((_, btag))) if fresh && btag == prog.tag as u64 => {
+                        self.counters.inc("c09_helper_then_pkt_checks");
+                        return self.c09(format!("packet-load-base/{}", engine.name()), at, format!("{}: the packet load after a helper call died with signal {} (the helper itself returned normally)", who, s));
+                    }
+                    _ => {}
+                }
+            }
+            Class::StackPlain => {
+                // bytes stored at r10-1 and r10-512 read back (one variant across a local call, whose
+                // pushes must land below the 512-byte window)
+                let expected = ((prog.p0 as u64) << 8) | prog.tag as u64;
+                if let Outcome::Ok(v) = obs.outcome {
+                    if v & 0xff != prog.tag as u64 {
+                        return None;
+                    }
+                    self.counters.inc("c09_stack_checks");
+                    if v != expected {
+                        return self.c09(format!("stack-top/{}", engine.name()), at, format!("{}: bytes stored at r10-512 and r10-1 read back as {:#x}, expected {:#x}{}", who, v >> 8, expected >> 8, if prog.local_call { " (a local call was made in between)" } else { "" }));
+                    }
                 }
             }
             Class::ProbeStack => {
